@@ -32,6 +32,12 @@ def gen_script(rng, faults=False, fixed=None, nops=None, shrink=True):
             lines.append('unwind %d' % k)
             depth = k + 1
             recorded = recorded[:reclen[k]]; reclen = reclen[:k + 1]
+        elif r < 0.835 and depth >= 2:
+            # unwind guards (memory_stack_raii_unwind): the inner one is move-assigned from the outer one
+            k1 = rng.randint(0, depth - 2); k2 = rng.randint(k1 + 1, depth - 1)
+            lines.append('raii %d %d' % (k1, k2 - k1 - 1))
+            depth = k1 + 1
+            recorded = recorded[:reclen[k1]]; reclen = reclen[:k1 + 1]
         elif r < 0.86 and shrink:
             lines.append('shrink'); clean = False
         elif r < 0.92:
